@@ -31,3 +31,11 @@ M("diag-v-hoisted", "utils.py", "    for i in range(n_params):\n        v = np.z
 M("diag-read-zero", "utils.py", "hess_inv.matvec(v)[i]", "hess_inv.matvec(v)[0]", ["DIAG"])
 M("diag-range-short", "utils.py", "    for i in range(n_params):\n", "    for i in range(n_params - 1):\n", ["DIAG"])
 Q("diag-matmul", "utils.py", "hess_inv.matvec(v)[i]", "(hess_inv @ v)[i]", ["DIAG"])
+
+# ---- SCALEPOS / BIND (round 2)
+M("scalepos-abs-lost", "utils.py", "    max_change = max(abs(updated_params))\n", "    max_change = np.max(updated_params)\n", ["SCALEPOS"], canary=True, note="R2_C03-c")
+Q("scalepos-np-abs", "utils.py", "    max_change = max(abs(updated_params))\n", "    max_change = np.max(np.abs(updated_params))\n", ["SCALEPOS"])
+Q("scalepos-norm-inf", "utils.py", "    max_change = max(abs(updated_params))\n    return 1.0 / max_change\n", "    return 1.0 / np.max(np.abs(updated_params))\n", ["SCALEPOS"])
+M("bind-above-iter-local", "main.py", "            ub,\n            istate.nit,\n            max_steplength_user,\n", "            ub,\n            istate.nit - nit_first,\n            max_steplength_user,\n", ["BIND"],
+  also=[("main.py", "        f0_old = copy.copy(f0)\n", "        f0_old = copy.copy(f0)\n        nit_first = 0\n")], note="R2_C07-a shape")
+M("bind-is-boxed-const", "main.py", "            max_steplength_user,\n            is_boxed,\n            sf,\n", "            max_steplength_user,\n            True,\n            sf,\n", ["BIND"])
